@@ -105,6 +105,13 @@ func (x *XSpec) Shrink(hist []Op, class string) ([]Op, HistOutcome) {
 			}
 		}
 	}
+	// prefix-minimal: if a proper prefix of the shrunk history already violates, that prefix is the witness
+	for n := 1; n < len(cur); n++ {
+		o := x.RunHistory(cur[:n], false)
+		if o.MM != nil {
+			return append([]Op(nil), cur[:n]...), o
+		}
+	}
 	return cur, last
 }
 
